@@ -227,14 +227,15 @@ Acc(k)  == [v |-> "accept", key |-> k]
 Rej     == [v |-> "reject", key |-> ""]
 Free(k) == [v |-> "free",   key |-> k]       \* the statement does not decide: accept with key k, or reject with an error
 
-\* f: plWf plMac plFresh | addrWf | sigB64 sigCanon | prFresh domOK | chain chainKey sigChain |
+\* f: plWf plMac plFresh | addrWf | sigB64 sigCanon | prFresh domOK | chain chainJunk chainKey sigChain |
 \*    siGiven siB64 siCanon siBoc siLayout siHash siCode siData siWallet siKeyOK siFull siKey sigSi
 Decide(f) ==
   IF ~f.plWf \/ ~f.plMac \/ f.plFresh = "no" THEN Rej       \* wrong-length / non-hex payload, not issued under the secret, expired
   ELSE IF ~f.addrWf \/ ~f.sigB64 THEN Rej                     \* malformed address or signature text
   ELSE IF f.prFresh = "no" \/ ~f.domOK THEN Rej               \* proof expired; made for another domain
   ELSE
-  LET undecided == f.plFresh # "yes" \/ f.prFresh # "yes" \/ ~f.sigCanon
+  \* (chainJunk: the account answered with something that is no key; whether the state-init may then stand in is not decided)
+  LET undecided == f.plFresh # "yes" \/ f.prFresh # "yes" \/ ~f.sigCanon \/ f.chainJunk
       siProper  == f.siGiven /\ f.siB64 /\ f.siBoc /\ f.siLayout /\ f.siHash /\ f.siCode /\ f.siData
   IN IF f.chain = "key"                                        \* the account itself names its key
        THEN IF ~f.sigChain THEN Rej                            \* signed by another key / over other fields
@@ -252,9 +253,20 @@ Matches(g, v) ==
 \* ============================================================ facts from recorded bytes
 \* e: [secret, lp, lpr, want_domain, now, address, domain, ts, sig, payload, state_init, chain] -- texts as byte
 \* tuples, now / ts decimal strings, chain = <<[wc, addr, mode, key]>> the accounts the (mock) executor knows.
+\* The account answers get_public_key with an INTEGER; the key is its 32-byte big-endian form.  What is no key: a contract
+\* without one answers 0 or some small number, and the 32-byte forms of such numbers are points nobody holds a private key
+\* for (00..00 and 00..0080 have order 4: for them anybody can write a "signature" with S = 0).  The library's own rule
+\* (getWalletPubKey): an answer of fewer than 24 significant bytes is not taken for a key -- a real key is that short with
+\* probability 2^-72 -- and the proof is then treated as if the account had not answered (junk).  The accepted set stays:
+\* proofs signed by the holder of the key the account commits to.
+RECURSIVE StripZeros(_)
+StripZeros(b) == IF Len(b) > 0 /\ b[1] = 0 THEN StripZeros(Tail(b)) ELSE b
 ChainLookup(chain, a) ==
   LET ix == {i \in 1..Len(chain) : chain[i].wc = a.wc /\ chain[i].addr = a.addr /\ chain[i].mode = "key"} IN
-  IF ix = {} THEN [has |-> FALSE, key |-> <<>>] ELSE [has |-> TRUE, key |-> chain[CHOOSE i \in ix : TRUE].key]
+  IF ix = {} THEN [has |-> FALSE, junk |-> FALSE, key |-> <<>>]
+  ELSE LET v == StripZeros(chain[CHOOSE i \in ix : TRUE].key) IN
+       IF Len(v) < 24 \/ Len(v) > 32 THEN [has |-> FALSE, junk |-> TRUE, key |-> <<>>]
+       ELSE [has |-> TRUE, junk |-> FALSE, key |-> [i \in 1..(32 - Len(v)) |-> 0] \o v]
 SigValid(key, msg, sig) == Len(key) = 32 /\ Len(sig) = 64 /\ EdVerify(key, msg, sig)
 Facts(e) ==
   LET now == Dec31(StrToCodes(e.now))
@@ -267,7 +279,7 @@ Facts(e) ==
       sigB64 == B64Valid(e.sig)
       sig == IF sigB64 THEN B64Decode(e.sig) ELSE <<>>
       msg == IF a.ok /\ tsOK THEN SignedMessage(a.wc, a.addr, e.domain, e.ts, e.payload) ELSE <<>>
-      ch  == IF a.ok THEN ChainLookup(e.chain, a) ELSE [has |-> FALSE, key |-> <<>>]
+      ch  == IF a.ok THEN ChainLookup(e.chain, a) ELSE [has |-> FALSE, junk |-> FALSE, key |-> <<>>]
       si  == IF a.ok THEN StateInitFacts(e.state_init, a.addr) ELSE StateInitFacts(<<>>, <<>>)
       vCh == ch.has /\ tsOK /\ SigValid(ch.key, msg, sig)
       vSi == si.keyOK /\ tsOK /\ (IF ch.has /\ ch.key = si.key THEN vCh ELSE SigValid(si.key, msg, sig))
@@ -276,7 +288,7 @@ Facts(e) ==
       addrWf |-> a.ok, sigB64 |-> sigB64, sigCanon |-> sigB64 /\ B64Canonical(e.sig),
       prFresh |-> IF tsNeg \/ ~tsOK THEN "no" ELSE Fresh(now, ts, e.lpr),
       domOK |-> e.domain = e.want_domain,
-      chain |-> IF ch.has THEN "key" ELSE "none", chainKey |-> BytesToHex(ch.key),
+      chain |-> IF ch.has THEN "key" ELSE "none", chainJunk |-> ch.junk, chainKey |-> BytesToHex(ch.key),
       sigChain |-> vCh,
       siGiven |-> si.given, siB64 |-> si.b64, siCanon |-> si.canon, siBoc |-> si.boc, siLayout |-> si.layout, siHash |-> si.hash,
       siCode |-> si.code, siData |-> si.data, siWallet |-> si.wallet, siVersion |-> si.version, siKeyOK |-> si.keyOK, siFull |-> si.full,
